@@ -247,6 +247,8 @@ def audit(form, xform):
                     probs.append(f"{p}: calculate emitted on the bind although the row has a trigger")
                 continue
             got = b.get(attr)
+            if got is not None and "${" in got:
+                probs.append(f"{p}: a ${{...}} reference survives in the bind's {attr.split('}')[-1]}: {got[:160]!r}")
             if got is None:
                 probs.append(f"{p}: cell {attr.split('}')[-1]}={v!r} did not reach the bind")
             elif got.startswith("jr:itext("):
@@ -334,6 +336,17 @@ def _check(args):
                 r[k] = v
     if i % 5 == 2:
         forms.add_exotics(rng_for(seed, PID, "exotic", i), form, ["noapp_ref", "group_truth"], p=0.8)
+    if i % 7 == 3:
+        # one logic cell holding many references (a sum over twenty questions): every one of them is substituted
+        rm_ = rng_for(seed, PID, "many-refs", i)
+        qn_ = [r_["name"] for r_ in form["survey"] if r_.get("name") and not r_["type"].startswith(("begin", "end")) and r_["type"].split()[0] in ("integer", "int", "decimal", "text", "string")]
+        depth_ = 0
+        for r_ in form["survey"]:
+            depth_ += r_.get("type", "").startswith("begin") - r_.get("type", "").startswith("end")
+        if qn_ and depth_ == 0:
+            k_ = rm_.choice([17, 18, 20, 33])
+            expr_ = " + ".join("${%s}" % rm_.choice(qn_) for _ in range(k_))
+            form["survey"].append({"type": "calculate", "name": "many_refs_sum", rm_.choice(["calculation", "relevant", "constraint"]): expr_, "calculation": expr_})
     # multi-word headers written with any white space between the words (the audit reads the canonical key)
     conv = form
     if i % 3 == 0:
